@@ -267,6 +267,55 @@ def c10_3(rep, ix):
     flat = [b for bs in chain for b in bs]
     rep.check(flat and flat[-1] in ("Exception",) and not any("Recognition" in b or "Cancel" in b for b in flat), R, "error.BlackbirdSyntaxError",
               "BlackbirdSyntaxError derives from Exception through handwritten classes only (the runtime's `except RecognitionException` cannot absorb it)", "bases %r" % chain, key="hierarchy")
+    # constructing the exception cannot itself fail: the constructors along the hierarchy dereference nothing that may be None
+    # (a regex match, a dict.get) and convert nothing, outside a guard / try that covers it
+    cur, seen = c, 0
+    names = ["error.BlackbirdSyntaxError"]
+    while cur is not None and seen < 6:
+        seen += 1
+        nxt = None
+        for b in [u(b_) for b_ in cur.bases]:
+            if "error." + b in ix.classes:
+                nxt = ix.classes["error." + b]
+                names.append("error." + b)
+        cur = nxt
+    for cq in names:
+        g = ix.funcs.get(cq + ".__init__")
+        if g is None:
+            continue
+        gn = getattr(g, "orig", None) or g.node
+        nullable = {}
+        for n in ast.walk(gn):
+            if isinstance(n, ast.Assign) and len(n.targets) == 1 and isinstance(n.targets[0], ast.Name) and isinstance(n.value, ast.Call) and isinstance(n.value.func, ast.Attribute) \
+                    and n.value.func.attr in ("match", "fullmatch", "search", "get"):
+                nullable[n.targets[0].id] = n
+        bad = []
+        from ..py.guards import path_to, stmt_of as _stmt_of
+
+        def guarded_by(fn_, node, name):
+            st_ = _stmt_of(fn_, node)
+            for (stmts, i, field) in path_to(fn_.body, st_) or []:
+                s_ = stmts[i]
+                if isinstance(s_, ast.If):
+                    t_ = " ".join(u(s_.test).split())
+                    if field == "body" and t_ in (name, "%s is not None" % name):
+                        return True
+                    if field == "orelse" and t_ in ("not %s" % name, "%s is None" % name):
+                        return True
+                for prev in stmts[:i]:
+                    if isinstance(prev, ast.If) and not prev.orelse and " ".join(u(prev.test).split()) in ("not %s" % name, "%s is None" % name) \
+                            and prev.body and isinstance(prev.body[-1], (ast.Return, ast.Raise)):
+                        return True
+            return False
+        for n in ast.walk(gn):
+            if isinstance(n, (ast.Subscript, ast.Attribute)) and isinstance(n.value, ast.Name) and n.value.id in nullable and isinstance(n.ctx, ast.Load):
+                in_try = any(isinstance(t, ast.Try) and any(x is n for b_ in t.body for x in ast.walk(b_)) and any(h.type is None or "TypeError" in u(h.type) or "Exception" in u(h.type) for h in t.handlers)
+                             for t in ast.walk(gn))
+                if not in_try and not guarded_by(gn, n, n.value.id):
+                    bad.append(n)
+        rep.check(not bad, R, ix.site(g, bad[0]) if bad else ix.site(g), "%s.__init__ cannot fail while the error is being constructed" % cq.split(".")[-1],
+                  "`%s` dereferences `%s`, which is None when the pattern does not match (e.g. a message that contains a line break): TypeError instead of BlackbirdSyntaxError" % (
+                      " ".join(u(bad[0]).split())[:50], bad[0].value.id) if bad else "", key="ctor|" + cq)
     lst = ix.cls("error.BlackbirdErrorListener")
     rep.check(any("ErrorListener" in u(b) for b in lst.bases), R, "error.BlackbirdErrorListener", "the listener derives from antlr4's ErrorListener", key="listener base")
     meths = {n.name for n in lst.body if isinstance(n, ast.FunctionDef)}
